@@ -222,6 +222,56 @@ static void run_threads(int n, int ph) {
   if (ph != 9) { pthread_barrier_destroy(&start_bar); }
 }
 
+
+/* ---------- a thread started from a COPY of a running thread's Thread object ----------
+** copy / assign of a Thread takes over the function and a copy of the source's thread-local table -- the entries the
+** runtime itself keeps there included.  Started, the clone must still get a collector, an exception context and a
+** storage of its own: what it allocates is its own, and the original's collections never touch it. */
+static volatile int clone_stage;          /* 0 idle, 1 original is up, 2 clone holds its objects, 3 original has collected, 4 clone has verified */
+static volatile int64_t clone_lost;
+static var volatile clone_gc[2];
+static var clone_main(var args) {
+  int role = (int)c_int(get(args, $I(0)));
+  mo_thread_index = 20 + role;
+  clone_gc[role] = current(GC);
+  if (role == 0) {
+    __atomic_store_n(&clone_stage, 1, __ATOMIC_RELEASE);
+    while (__atomic_load_n(&clone_stage, __ATOMIC_ACQUIRE) < 2) { usleep(200); }
+    for (int i = 0; i < 6000; i++) { var g = new(PNode, $I(next_probe_id())); g = NULL; }      /* several collections of this thread */
+    __atomic_store_n(&clone_stage, 3, __ATOMIC_RELEASE);
+    while (__atomic_load_n(&clone_stage, __ATOMIC_ACQUIRE) < 4) { usleep(200); }
+  } else {
+    volatile var held[120]; int64_t ids[120];
+    for (int i = 0; i < 120; i++) { ids[i] = next_probe_id(); held[i] = new(PNode, $I(ids[i])); }
+    __atomic_store_n(&clone_stage, 2, __ATOMIC_RELEASE);
+    while (__atomic_load_n(&clone_stage, __ATOMIC_ACQUIRE) < 3) { usleep(200); }
+    int64_t lost = 0;
+    for (int i = 0; i < 120; i++) { if (mo_state[ids[i]] != MO_CONSTRUCTED || ((struct PNode*)held[i])->id != ids[i]) { lost++; } }
+    clone_lost = lost;
+    for (int i = 0; i < 120; i++) { held[i] = NULL; }
+    __atomic_store_n(&clone_stage, 4, __ATOMIC_RELEASE);
+  }
+  return NULL;
+}
+
+static void cloned_thread_trial(void) {
+  var fn = $(Function, clone_main);
+  var role0 = new_raw(Int, $I(0)), role1 = new_raw(Int, $I(1));
+  var a = new_raw(Thread, fn);
+  clone_stage = 0; clone_lost = -1; clone_gc[0] = clone_gc[1] = NULL;
+  call(a, role0);
+  while (__atomic_load_n(&clone_stage, __ATOMIC_ACQUIRE) < 1) { usleep(200); }
+  /* the original now sleeps between polls of a flag and touches nothing of its own: copy its Thread object */
+  var b = copy(a);
+  call(b, role1);
+  join(b); join(a);
+  vh_evals(3);
+  if (clone_gc[0] == NULL || clone_gc[0] == clone_gc[1]) { vh_violation("C13:isolation:cloned-thread-shares-the-collector-of-the-original", "current(GC) is %p in the original and %p in the thread started from a copy of its Thread object", clone_gc[0], clone_gc[1]); }
+  if (clone_lost != 0) { vh_violation("C13:isolation:objects-of-a-cloned-thread-finalised-by-the-original", "%" PRId64 " of the 120 objects the cloned thread was holding were finalised or damaged while only the original was allocating", (int64_t)clone_lost); }
+  del(b); del_raw(a); del_raw(role0); del_raw(role1);
+  vh_count("cloned_thread_trials");
+}
+
 static void one_trial(vh_rng* r, int nthreads) {
   wl_ops = 60 + (int)vh_below(r, vh.thorough ? 200 : 100);
   sections_per_thread = 50 + (int)vh_below(r, 150);
@@ -274,6 +324,7 @@ static void one_trial(vh_rng* r, int nthreads) {
   vh_count_n("mutex_handovers_between_threads", (uint64_t)handovers);
   vh_count_n("trylock_sections_that_had_to_wait", (uint64_t)contended);
   del_raw(the_mutex);
+  cloned_thread_trial();
   /* join publishes */
   memset(RES, 0, sizeof RES);
   run_threads(nthreads, 2);
